@@ -84,7 +84,7 @@ func TestC04(t *testing.T) {
 		return
 	}
 
-	r.Rapid(t, "hostile", vf.N(14000, 1000000), func(t *rapid.T) {
+	r.Rapid(t, "hostile", vf.N(14000, 5000000), func(t *rapid.T) {
 		frame, kind := genHostileFrame(t)
 		for _, entry := range c04Entries(t, frame) {
 			accepted, sig, msg := checkC04(entry, frame)
